@@ -226,6 +226,10 @@ func (propC16) Run(scI interface{}) *Outcome {
 		}
 		srcs[flat(t.Name)] = s
 	}
+	// a twin pair `x` / `x.twig`: distinct templates whose names differ only by the usual suffix
+	twinBase := flat("twin")
+	srcs[twinBase] = "twin-plain {{ 1 + 1 }}"
+	srcs[twinBase+".twig"] = "twin-suffixed {{ 2 + 2 }}"
 	mainName := flat(sc.Prog.Main)
 	hubA := &spyHub{per: []*Spies{newSpies()}}
 	A := twig.New()
@@ -237,6 +241,11 @@ func (propC16) Run(scI interface{}) *Outcome {
 			names = append(names, n)
 		}
 		w.AdvanceClock(1e9)
+	}
+	for _, n := range []string{twinBase, twinBase + ".twig"} {
+		if err := A.RegisterString(n, srcs[n]); err == nil {
+			names = append(names, n)
+		}
 	}
 	// compile + serialise everything back-to-back, keep all slices
 	type ser struct {
@@ -323,6 +332,13 @@ func (propC16) Run(scI interface{}) *Outcome {
 		for i := 0; i < 2; i++ {
 			B.Render("warm", nil)
 		}
+		if sc.Via == "bytes" {
+			// the target already holds an older release under every name, registered LATER than the source engine's
+			w.AdvanceClock(5e9)
+			for _, n := range names {
+				B.RegisterString(n, "previous release of "+n)
+			}
+		}
 	}
 	transferred := true
 	switch sc.Via {
@@ -386,6 +402,21 @@ func (propC16) Run(scI interface{}) *Outcome {
 		}
 	}
 	o.Nontrivial = sc.Via != "bytes" || w.Stat[simrt.StPoolReuse] > 0
+	if transferred && !faulted {
+		for _, n := range names {
+			t, err := B.Load(n)
+			if faulted {
+				break // a read fault configured for a later operation fired here
+			}
+			if err != nil {
+				return fail("a transferred template cannot be loaded on the target engine", fmt.Sprintf("%s (via %s): %v", n, sc.Via, err))
+			}
+			if _, src, _, _ := twig.VerifTemplateMeta(t); src != srcs[n] {
+				return fail("a transferred template has another template's (or an older) source on the target engine", fmt.Sprintf("%s (via %s): got %q want %q", n, sc.Via, tail(src, 120), tail(srcs[n], 120)))
+			}
+			o.Probes["sources_compared_on_target"]++
+		}
+	}
 	if !transferred {
 		o.Probes["transfer_failed_by_fault"]++
 		return o
